@@ -1415,6 +1415,59 @@ impl<T> Queries<T> {
     }
 }
 
+//============ Verification hooks ============================================
+
+/// Hooks for out-of-tree verification harnesses (not part of the API).
+#[cfg(nlnetlabs_domain_verif)]
+pub mod verif_hooks {
+    use super::Queries;
+    use std::vec::Vec;
+
+    /// A public handle on the private outstanding-query table.
+    pub struct QueriesHook<T>(Queries<T>);
+
+    impl<T> QueriesHook<T> {
+        /// Creates an empty table.
+        pub fn new() -> Self {
+            Self(Queries::new())
+        }
+
+        /// Creates a table in an arbitrary internal state.
+        pub fn from_parts(
+            count: usize,
+            curr: usize,
+            vec: Vec<Option<T>>,
+        ) -> Self {
+            Self(Queries { count, curr, vec })
+        }
+
+        /// See `Queries::insert`; returns the ID only.
+        pub fn insert(&mut self, req: T) -> Result<u16, T> {
+            self.0.insert(req).map(|(id, _)| id)
+        }
+
+        /// See `Queries::insert_at`.
+        pub fn insert_at(&mut self, id: u16, req: T) {
+            self.0.insert_at(id, req)
+        }
+
+        /// See `Queries::try_remove`.
+        pub fn try_remove(&mut self, id: u16) -> Option<T> {
+            self.0.try_remove(id)
+        }
+
+        /// See `Queries::is_empty`.
+        pub fn is_empty(&self) -> bool {
+            self.0.is_empty()
+        }
+
+        /// The bookkeeping fields and the slot contents.
+        pub fn parts(&self) -> (usize, usize, &[Option<T>]) {
+            (self.0.count, self.0.curr, &self.0.vec)
+        }
+    }
+}
+
 //============ Tests =========================================================
 
 #[cfg(test)]
